@@ -16,6 +16,17 @@ func (e *Engine) harnessAPI2(name string, args []Value, fn *ssa.Function) (Value
 	case "vEcdsaSign":
 		r, s, _ := e.ecdsaSignOK(args[0].(PtrV), args[1].(BytesV))
 		return TupleV{r, s}, true
+	case "vOnCurve":
+		pub := e.load(args[0].(PtrV)).(*StructV)
+		return e.tt.UF("onCurve", 0, e.intern("key", e.ecPubID(pub))), true
+	case "vRSAKeyValid":
+		p := e.mkRSAKey(e.argStr(args[0]))
+		pub := e.load(p).(*StructV).fields[0].(*StructV)
+		n, _ := e.bigOf(pub.fields[0])
+		e.addPC(e.tt.Cmp("bvuge", n.bl, e.c64(2048)))
+		return p, true
+	case "vRand":
+		return Iface{typ: e.fake("rand"), val: OpaqueV{kind: "rand"}}, true
 	case "vHash":
 		h := args[0].(*Term)
 		n := len(e.primLog)
